@@ -21,6 +21,12 @@ contract field Proxy.getStatus()
 // the status code Prometheus sees for the response written to w
 pred statusOf(w) = ite(gCode[payload(w)] != 0, gCode[payload(w)], 200)
 
+// the response was aborted (panic with http.ErrAbortHandler: the server closes the connection without completing the
+// response, so the client sees an interrupted response, never a complete one)
+ghost global gAborted bool
+on panic "net/http.ErrAbortHandler"() in Proxy.ServeHTTP
+   do gAborted = true
+
 // scrape attempts made and status updates done in this request
 ghost global gAttempts int
 ghost global gStatusUpdates int
@@ -46,17 +52,19 @@ on call scrape.Scraper.RequestTo(s) in Proxy.ServeHTTP
 
 contract Proxy.ServeHTTP
   requires p != nil && p.getCurCfg != nil && p.getJob != nil && p.getStatus != nil && r != nil && r.URL != nil && w != nil
-  requires gCode[payload(w)] == 0 && gOutLen[payload(w)] == 0
+  requires gCode[payload(w)] == 0 && gOutLen[payload(w)] == 0 && !gAborted
+  // "the Prometheus-side scrape fails as well (non-200 status or aborted response, never a complete 200 response with truncated content)"
   ensures[C13] cases {
-     failed_before_any_body_byte: (defined(scrapErr) && (scrapErr != nil || stopReason != "") && gOutLen[payload(w)] == 0) => statusOf(w) != 200 ;
-     failed_after_body_started:   (defined(scrapErr) && (scrapErr != nil || stopReason != "") && gOutLen[payload(w)] > 0) => statusOf(w) != 200 ;
+     failed_before_any_body_byte: (defined(scrapErr) && (scrapErr != nil || stopReason != "") && gOutLen[payload(w)] == 0) => (statusOf(w) != 200 || gAborted) ;
+     failed_after_body_started:   (defined(scrapErr) && (scrapErr != nil || stopReason != "") && gOutLen[payload(w)] > 0) => (statusOf(w) != 200 || gAborted) ;
      bad_request:                 !defined(scrapErr) => statusOf(w) != 200
   }
+  ensures[C12,C13] @a_successful_scrape_is_never_aborted (defined(scrapErr) && scrapErr == nil && stopReason == "") ==> !gAborted
   ensures[C13] @one_status_update_per_attempt_on_assigned_target defined(tar) ==> (tar != nil ==> gStatusUpdates - old(gStatusUpdates) == gAttempts - old(gAttempts)) && gAttempts == old(gAttempts) + 1
   ensures[C12] @success_leaves_status_200 (defined(scrapErr) && scrapErr == nil && stopReason == "") ==> statusOf(w) == 200
   modifies target.ScrapeStatus.*, tkestack.io/kvass/pkg/scrape.Scraper.*, tkestack.io/kvass/pkg/scrape.StatisticsSeriesResult.*, tkestack.io/kvass/pkg/scrape.MetricSamplesInfo.*,
            mapof(tkestack.io/kvass/pkg/scrape.StatisticsSeriesResult.MetricsTotal), elems(target.ScrapeStatus.lastSeries) at {},
-           gOutLen, gOutData, gCode, gAttempts, gStatusUpdates, gKept, gMetricTotal, gMetricScraped, gClock, github.com/klauspost/compress/gzip.Reader.gInPool,
+           gOutLen, gOutData, gCode, gAborted, gAttempts, gStatusUpdates, gKept, gMetricTotal, gMetricScraped, gClock, github.com/klauspost/compress/gzip.Reader.gInPool,
            tkestack.io/kvass/pkg/scrape.wrappedReader.* at {}, net/http.Response.* at {}, net/http.Request.* at {}, elems(tkestack.io/kvass/pkg/scrape.Scraper.writer) at {}
 
 // ---------- the target manager (C10) ----------
